@@ -16,7 +16,9 @@ CONSTANTS
   Ids, Vals, Marks,   \* tokens
   BigVals,   \* value tokens that the harness expands to values larger than the read buffer
   BigOneIn,  \* a SET carries a big value with probability 1/BigOneIn (1/2 in streams of at most 10 frames)
-  Lens       \* stream lengths (frames); the behaviour chooses one
+  Lens,      \* stream lengths (frames); the behaviour chooses one
+  LastCmd    \* <<>>, or the command of the last frame (RESP): the harness pads its argument so that the whole stream
+             \* has a chosen length relative to the server's read buffer
 
 VARIABLES frames, conn, store, replies, target, done
 vars == <<frames, conn, store, replies, target, done>>
@@ -32,7 +34,8 @@ RandCmd(z) ==
     [] op = "ZZ"   -> <<"ZZ">>
 RandFrame(z, last) ==
   LET f == [k |-> IF last THEN RE(LastKinds) ELSE RE(Kinds), a |-> RandCmd(z)]
-  IN IF Encodable(f) THEN f ELSE [f EXCEPT !.k = "resp"]
+  IN IF last /\ LastCmd # <<>> THEN [k |-> "resp", a |-> LastCmd]
+     ELSE IF Encodable(f) THEN f ELSE [f EXCEPT !.k = "resp"]
 
 Init == /\ frames = <<>> /\ conn = InitConn /\ store = [i \in Ids |-> ""] /\ replies = <<>> /\ done = FALSE
         /\ target \in Lens
